@@ -140,11 +140,20 @@ def main(argv):
         if j.get('mode'):
             args += ['--mode', j['mode']]
         args += ['--tier', tier]
-        agg = run.run_job(binpath, args, seed, n, repo, j['variant'],
-                          nworkers=j.get('workers'),
-                          timeout_s=j.get('timeout', 3000),
-                          leak_check=j.get('leak_check', False),
-                          extra_env=j.get('env'))
+        if j.get('fuzz'):
+            agg = run.run_fuzz_job(binpath, seed, n, repo,
+                                   nworkers=j.get('workers'),
+                                   timeout_s=j.get('timeout', 7200),
+                                   unit_timeout=j.get('unit_timeout', 20),
+                                   max_len=j.get('max_len', 4096),
+                                   seed_env=j.get('seed_env'),
+                                   extra_env=j.get('env'))
+        else:
+            agg = run.run_job(binpath, args, seed, n, repo, j['variant'],
+                              nworkers=j.get('workers'),
+                              timeout_s=j.get('timeout', 3000),
+                              leak_check=j.get('leak_check', False),
+                              extra_env=j.get('env'))
         if j.get('post'):
             j['post'](agg, j, tier)
         evaluations += agg['cases_run']
